@@ -686,7 +686,26 @@ def exception_total(ctx) -> None:
                 tainted = sorted({x.id for x in ast.walk(t) if isinstance(x, ast.Name) and x.id in params})
                 if tainted:
                     bad = (sub_, tainted)
+            # conversions that raise for inf / NaN / non-integers: math.ceil(inf) -> OverflowError, int(nan) -> ValueError,
+            # f"{x:d}" with a float -> ValueError.  The amounts that violate a limit are exactly the unusual ones.
+            partial = None
+            for sub_ in own_walk(init.node):
+                if isinstance(sub_, ast.Call) and call_fname(sub_) in ("ceil", "floor", "trunc", "int", "round") and sub_.args and not (call_fname(sub_) == "round" and len(sub_.args) > 1) \
+                        and not (isinstance(sub_.func, ast.Attribute) and isinstance(sub_.func.value, ast.Name) and sub_.func.value.id in ("np", "numpy")):
+                    t = fv.res.resolve(sub_.args[0], fv.node_of(sub_))
+                    tainted = sorted({x.id for x in ast.walk(t) if isinstance(x, ast.Name) and x.id in params})
+                    if tainted:
+                        partial = (sub_, f"`{stmt_key(sub_)[:50]}` raises OverflowError / ValueError when {tainted[0]} is infinite or NaN")
+                if isinstance(sub_, ast.FormattedValue) and sub_.format_spec is not None:
+                    spec = "".join(v_.value for v_ in sub_.format_spec.values if isinstance(v_, ast.Constant) and isinstance(v_.value, str))
+                    if spec.endswith(("d", "x", "b", "o", "c", "n")):
+                        tainted = sorted({x.id for x in ast.walk(sub_.value) if isinstance(x, ast.Name) and x.id in params})
+                        if tainted:
+                            partial = (sub_, f"the integer format `:{spec}` raises ValueError when {tainted[0]} is not an int")
             c = f"{cls.name}.__init__"
+            if partial and not bad:
+                ctx.rep.refuted(rule, c, f"{partial[1]}: the constructor fails while the violation is being reported, so the operation ends with that error instead of {cls.name}", where=init.where(partial[0]))
+                continue
             if bad:
                 ctx.rep.refuted(rule, c, f"`{stmt_key(bad[0])[:70]}` formats a template that already contains the argument(s) {bad[1]}: braces/percent signs in that text (e.g. a label "
                                 f"like 'dilution {{1:10}}') make the constructor raise KeyError/IndexError, so the operation fails with that instead of {cls.name}", where=init.where(bad[0]))
